@@ -19,6 +19,9 @@ import traceback
 VERIF = os.path.dirname(os.path.dirname(os.path.abspath(__file__)))
 COQ = os.path.join(VERIF, 'coq')
 REPO = os.environ.get('VERIF_REPO', '/repo')
+# runs against a scratch copy of the repository (seeded-change evaluation) keep
+# their evidence and replays apart from the registered checks' files
+OUT = VERIF if os.path.realpath(REPO) == '/repo' else os.path.join(VERIF, 'scratch', 'alt')
 ALLOWED_AXIOMS = set()   # every property theorem is closed under the global context
 
 
@@ -177,7 +180,11 @@ def worker_init(repo, quiet=True):
 
 
 def scratch_dir(tag):
-    d = os.path.join(W['scratch'], tag)
+    # digits are dropped from the tag on purpose: within one worker process
+    # successive cases REUSE the same paths, so state kept by the
+    # implementation across calls (caches keyed by path, open handles) meets
+    # different contents at the same path
+    d = os.path.join(W['scratch'], re.sub(r'\d+', '', tag))
     shutil.rmtree(d, ignore_errors=True)
     return d
 
@@ -304,7 +311,7 @@ class Report:
         self.pid, self.tier, self.seed = pid, tier, seed
         self.t0 = time.time()
         import glob
-        for old in glob.glob(os.path.join(VERIF, "replay", pid + "_*.json")):
+        for old in glob.glob(os.path.join(OUT, "replay", pid + "_*.json")):
             os.remove(old)
         self.evals = 0
         self.keys = set()
@@ -341,8 +348,8 @@ class Report:
 
     def finish(self, level_rule, trusted_base, assumptions, checker_cmd, known=None):
         known = known or {}
-        os.makedirs(os.path.join(VERIF, 'evidence'), exist_ok=True)
-        os.makedirs(os.path.join(VERIF, 'replay'), exist_ok=True)
+        os.makedirs(os.path.join(OUT, 'evidence'), exist_ok=True)
+        os.makedirs(os.path.join(OUT, 'replay'), exist_ok=True)
         for key, n in sorted(self.known_hits.items()):
             print(f"KNOWN-FINDING: property={self.pid} {key}: {known.get(key, '')} ({n} cases)")
         nviol = 0
@@ -354,7 +361,7 @@ class Report:
                 continue
             seen.add(kind)
             nviol += 1
-            path = os.path.join(VERIF, 'replay', f"{self.pid}_{len(seen)}.json")
+            path = os.path.join(OUT, 'replay', f"{self.pid}_{len(seen)}.json")
             with open(path, 'w') as f:
                 json.dump({'property': self.pid, 'seed': self.seed, 'tier': self.tier,
                            'failing_input_found': concrete, **v}, f, indent=1, default=repr)
@@ -383,7 +390,7 @@ class Report:
         }
         if self.notes:
             ev['coverage']['notes'] = self.notes
-        with open(os.path.join(VERIF, 'evidence', self.pid + '.json'), 'w') as f:
+        with open(os.path.join(OUT, 'evidence', self.pid + '.json'), 'w') as f:
             json.dump(ev, f, indent=1, default=repr)
         return 1 if nviol else 0
 
